@@ -44,12 +44,14 @@ fn regular_table(rng: &mut Rng, tokn: &mut usize, allow_empty: bool, nested: boo
         html.push_str("<tr>");
         let mut row = Vec::new();
         let mut c = 0;
+        // now and then a whole row of blank cells (empty, or holding only white space)
+        let blank_row = allow_empty && rng.chance(1, 8);
         while c < cols {
             let span = if rng.chance(1, 4) { rng.range(1, cols - c) } else { 1 };
-            let kind = rng.below(10);
+            let kind = if blank_row { 0 } else { rng.below(10) };
             let mut tok = String::new();
             let content = if allow_empty && kind == 0 {
-                String::new()
+                rng.pick(&["", "", " ", "&nbsp;", "\n  ", "<span> </span>"]).to_string()
             } else if nested && depth > 0 && (kind == 1 || kind == 6) {
                 let (t, _) = regular_table(rng, tokn, false, false, depth - 1);
                 *tokn += 1;
@@ -152,13 +154,25 @@ fn gen_c05(tier: &str, rng: &mut Rng) -> Vec<Case> {
 pub fn tiny_table(rng: &mut Rng) -> (String, Vec<String>) {
     let rows = rng.range(1, 3);
     let cols = rng.range(2, 5);
-    let empty_col: Vec<bool> = (0..cols).map(|_| rng.chance(1, 3)).collect();
+    let empty_col: Vec<bool> = (0..cols).map(|_| rng.chance(2, 5)).collect();
     let mut next = 0u8;
     let mut toks = Vec::new();
     let mut html = String::from("<table>");
-    for _ in 0..rows {
+    for r in 0..rows {
         html.push_str("<tr>");
-        for c in 0..cols {
+        let mut c = 0;
+        while c < cols {
+            // a run of entirely empty columns may be covered by one empty spanning cell (not in the
+            // first row, so that the columns stay distinct)
+            let mut run = 0;
+            while c + run < cols && empty_col[c + run] {
+                run += 1;
+            }
+            if run >= 2 && r > 0 && rng.chance(1, 2) {
+                html.push_str(&format!("<td colspan=\"{}\"></td>", run));
+                c += run;
+                continue;
+            }
             if empty_col[c] || rng.chance(1, 6) || next >= 24 {
                 html.push_str("<td></td>");
             } else {
@@ -170,6 +184,7 @@ pub fn tiny_table(rng: &mut Rng) -> (String, Vec<String>) {
                 html.push_str(&format!("<td>{}</td>", t));
                 toks.push(t);
             }
+            c += 1;
         }
         html.push_str("</tr>");
     }
@@ -496,7 +511,15 @@ fn gen_c07(tier: &str, rng: &mut Rng) -> Vec<Case> {
         let nitems = rng.range(1, 15);
         let ida = if rng.chance(1, 3) { format!(" id=\"n{}\"", rng.below(50)) } else { String::new() };
         let mut html = if absent { format!("<ol{}>", ida) } else { format!("<ol{} start=\"{}\">", ida, start) };
+        // some items render nothing: they still take their number
+        let mut empties: Vec<i64> = Vec::new();
         for k in 0..nitems {
+            if nitems > 1 && rng.chance(1, 10) {
+                html.push_str(*rng.pick(&["<li></li>", "<li><!--c--></li>", "<li><span></span></li>", "<li><p></p></li>"]));
+                empties.push(1);
+                continue;
+            }
+            empties.push(0);
             if rng.chance(1, 8) {
                 html.push_str(&format!("<li id=\"i{}\">item{}</li>", k, k));
             } else {
@@ -506,7 +529,7 @@ fn gen_c07(tier: &str, rng: &mut Rng) -> Vec<Case> {
         html.push_str("</ol>");
         let deco = *rng.pick(&[0u8, 1, 2]);
         let id = cases.len();
-        cases.push(mk_case(id, 0, Cfg { deco, ..Default::default() }, rng.range(12, 100), html.into_bytes(), Some(0), Meta::G { role: "numbering", strs: vec![], nums: vec![if absent { 1 } else { start }, nitems as i64] }, "numbering"));
+        cases.push(mk_case(id, 0, Cfg { deco, ..Default::default() }, rng.range(12, 100), html.into_bytes(), Some(0), Meta::G { role: "numbering", strs: vec![], nums: { let mut v = vec![if absent { 1 } else { start }, nitems as i64]; v.extend(empties.iter()); v } }, "numbering"));
     }
     cases
 }
@@ -556,7 +579,8 @@ fn check_c07(cases: &[Case], results: &[Option<RunResult>]) -> Vec<Violation> {
             let start = cases[i].meta.nums()[0];
             let n = cases[i].meta.nums()[1];
             let width = (start..start + n).map(|k| format!("{}. ", k).len()).max().unwrap_or(0);
-            let expect: Vec<String> = (0..n).map(|k| format!("{:<w$}item{}", format!("{}. ", start + k), k, w = width)).collect();
+            let empties = &cases[i].meta.nums()[2..];
+            let expect: Vec<String> = (0..n).filter(|k| empties.get(*k as usize).copied().unwrap_or(0) == 0).map(|k| format!("{:<w$}item{}", format!("{}. ", start + k), k, w = width)).collect();
             if lines != expect {
                 v.push(viol(i, "ordered items are not numbered consecutively from start with a common marker width", format!("expected {:?} got {:?}", expect, lines), None));
             }
@@ -620,6 +644,47 @@ fn gen_c16(tier: &str, rng: &mut Rng) -> Vec<Case> {
             cases.push(c2);
         }
     }
+    // inline elements - some of them empty - in one paragraph: the affixes surround exactly the
+    // element text, also when there is none
+    let n3 = if tier == "thorough" { 20000 } else { 1500 };
+    for _ in 0..n3 {
+        let custom = rand_custom(rng);
+        let cfg = Cfg { deco: 4, custom: custom.clone(), ..Default::default() };
+        let mut html = String::from("<p>");
+        let mut expect = String::new();
+        let nseg = rng.range(2, 6);
+        for k in 0..nseg {
+            let word = format!("w{}x", k);
+            let text = if rng.chance(1, 3) { String::new() } else { word.clone() };
+            let (tag, si, ei, struck): (&str, usize, usize, bool) = match rng.below(6) {
+                0 => ("em", 2, 3, false),
+                1 => ("i", 2, 3, false),
+                2 => ("strong", 4, 5, false),
+                3 => ("s", 6, 7, true),
+                4 => ("code", 8, 9, false),
+                _ => ("", 0, 0, false),
+            };
+            if tag.is_empty() {
+                html.push_str(&word);
+                expect.push_str(&word);
+            } else {
+                html.push_str(&format!("<{}>{}</{}>", tag, text, tag));
+                expect.push_str(&custom[si]);
+                for ch in text.chars() {
+                    expect.push(ch);
+                    if struck {
+                        expect.push('\u{336}');
+                    }
+                }
+                expect.push_str(&custom[ei]);
+            }
+            html.push(' ');
+        }
+        html.push_str("end</p>");
+        expect.push_str("end");
+        let id = cases.len();
+        cases.push(mk_case(id, 0, cfg, rng.range(30, 80), html.into_bytes(), Some(0), Meta::G { role: "inline_affixes", strs: vec![expect], nums: vec![] }, "inline_affixes"));
+    }
     // ordered lists whose markers differ in length (9 -> 10, 99 -> 100, ...): every item is padded
     // to the display width of the widest marker and its content wrapped to what is left
     let n2 = if tier == "thorough" { 20000 } else { 1000 };
@@ -672,6 +737,13 @@ fn check_c16(cases: &[Case], results: &[Option<RunResult>]) -> Vec<Violation> {
                 if str_width(l) > c.spec.width {
                     v.push(viol(i, "line wider than the width with a custom decorator", format!("width {} line {:?}", c.spec.width, l), None));
                     break;
+                }
+            }
+            if c.meta.role() == "inline_affixes" {
+                let got: String = lines.join("\n").chars().filter(|ch| !ch.is_whitespace()).collect();
+                let want: String = c.meta.strs()[0].chars().filter(|ch| !ch.is_whitespace()).collect();
+                if got != want {
+                    v.push(viol(i, "decorator affixes do not surround exactly the element text", format!("wanted {:?} got {:?}", want, got), None));
                 }
             }
             if c.meta.role() == "doc" {
